@@ -4,14 +4,19 @@
 
    The harness can only schedule the worker from one blocking point to the next, so a K-level event
    is a short fixed sequence of model events (every one executed by Scanner.step):
-   The model runs with the code's reader (LineReader.code_reader_loops: readLine returns at EOF), the variant
-   the theorems of props/C17.v are about.
-     KRun      the worker, released from a sleep, performs ReadSlice turns (ERead) until it sleeps again,
-               offers an event (then the consumer receives it at once: ETake) or returns;
+   The model runs the variant Scanner.code, the one the theorems of props/C17.v are about.
+     KRun      the worker, released from its sleep (EWake; it may return here), performs ReadSlice turns (ERead)
+               until it sleeps again, offers an event (then the consumer receives it at once: ETake) or returns;
      KConfirm  EConfirm; if it was accepted ESetOff, and the worker runs on as in KRun;
+     KCollect w  ECollect w (collector.Run's Write call and what follows); if the event was confirmed as KConfirm;
      KStop     EStop; EExit; EPersist (the persister's last write);   KCrash   EStop; EExit;
      KStart    ERestart, and the new worker runs as in KRun;
-     KSync     ESync, and a worker it started runs as in KRun. *)
+     KSync     ESync, and a worker it started runs as in KRun.  If that worker is for a NEW file identity and the
+               worker of the file that was at the path is still running, the latter goes on as a second machine:
+               the same state seen on the file it has open (Scanner.own_file) after EStopOnEof - i.e. one of the
+               schedules the theorems quantify over (C17_drain) -, driven by
+     KOldRun / KOldConfirm   as KRun / KConfirm.  (The new worker is in a start state: C17_rotate.) A stop, a crash
+               or a later rotation ends it as far as the model is concerned (the harness leaves it blocked). *)
 From LR Require Export lib.Base model.LineReader model.Scanner.
 
 Inductive kev :=
@@ -23,7 +28,10 @@ Inductive kev :=
 | KCrash
 | KStart
 | KReplace (id : nat) (content : bytes)
-| KSync.
+| KSync
+| KOldRun              (* the worker of the rotated-away file is released from its sleep *)
+| KOldConfirm          (* ... its event is confirmed *)
+| KCollect (w : wres). (* collector.Run is the consumer: one Write call with this outcome *)
 
 Definition obs_eqb (a b : obs) : bool :=
   match a, b with
@@ -34,6 +42,7 @@ Definition obs_eqb (a b : obs) : bool :=
   | ORestart x, ORestart y => Nat.eqb x y
   | OSleep x, OSleep y => Bool.eqb x y
   | OExit, OExit => true
+  | OWrite x, OWrite y => Bool.eqb x y
   | OFresh x, OFresh y => Nat.eqb x y
   | OOther x, OOther y => Nat.eqb x y
   | _, _ => false
@@ -43,45 +52,67 @@ Section K.
 Variable B rpe : nat.
 
 (* the worker runs until it blocks; an offered event is received at once *)
-Definition go (s : st) : st * list obs :=
-  let '(s1, o1) := run_reads code_reader_loops B rpe (S (S (length (wfile s)))) s in
+Definition go (s0 : st) : st * list obs :=
+  let '(s, o0) := step code B rpe s0 EWake in
+  let '(s1, o1) := run_reads code B rpe (S (S (length (wfile s)))) s in
   match ph s1 with
-  | PSend _ => let '(s2, o2) := step code_reader_loops B rpe s1 ETake in (s2, o1 ++ o2)
-  | _ => (s1, o1)
+  | PSend _ => let '(s2, o2) := step code B rpe s1 ETake in (s2, o0 ++ o1 ++ o2)
+  | _ => (s1, o0 ++ o1)
   end.
 
 Definition seq2 (r : st * list obs) (f : st -> st * list obs) : st * list obs :=
   let '(s1, o1) := r in let '(s2, o2) := f s1 in (s2, o1 ++ o2).
 
-(* [down]: no scanner process exists *)
-Definition kstep (x : bool * st) (k : kev) : (bool * st) * list obs :=
-  let '(down, s) := x in
-  let st1 := step code_reader_loops B rpe in
-  let lift (dn : bool) (r : st * list obs) := ((dn, fst r), snd r) in
+Definition alive (s : st) : bool := match ph s with PDone => false | _ => true end.
+
+(* [down]: no scanner process exists; [old]: the worker of a file that was rotated away, a machine of its own on
+   the file it has open, told to stop at EOF *)
+Record kst := mkK { k_down : bool; k_cur : st; k_old : option st }.
+
+Definition confirm_then (r : st * list obs) : st * list obs :=
+  let '(s1, o1) := r in
+  if existsb (fun o => match o with OConf true => true | _ => false end) o1
+  then seq2 (seq2 (s1, o1) (fun t => step code B rpe t ESetOff)) go
+  else (s1, o1).
+
+Definition kstep (x : kst) (k : kev) : kst * list obs :=
+  let st1 := step code B rpe in
+  let s := k_cur x in
+  let cur (dn : bool) (r : st * list obs) := (mkK dn (fst r) (k_old x), snd r) in
+  let gone (dn : bool) (r : st * list obs) := (mkK dn (fst r) None, snd r) in
   match k with
-  | KAppend bs => lift down (st1 s (EAppend bs))
-  | KRun => if down then (x, []) else lift false (go s)
-  | KConfirm =>
-      let '(s1, o1) := st1 s EConfirm in
-      match o1 with
-      | [OConf true] => lift down (seq2 (seq2 (s1, o1) (fun t => st1 t ESetOff)) go)
-      | _ => lift down (s1, o1)
-      end
-  | KPersist => if down then (x, []) else lift false (st1 s EPersist)
-  | KStop => if down then (x, []) else
-      lift true (seq2 (seq2 (st1 s EStop) (fun t => st1 t EExit)) (fun t => st1 t EPersist))
-  | KCrash => if down then (x, []) else lift true (seq2 (st1 s EStop) (fun t => st1 t EExit))
-  | KStart => if down then lift false (seq2 (st1 s ERestart) go) else (x, [])
-  | KReplace id c => lift down (st1 s (EReplace id c))
-  | KSync => if down then (x, []) else
+  | KAppend bs => cur (k_down x) (st1 s (EAppend bs))
+  | KRun => if k_down x then (x, []) else cur false (go s)
+  | KConfirm => cur (k_down x) (confirm_then (st1 s EConfirm))
+  | KCollect w => if k_down x then (x, []) else cur false (confirm_then (st1 s (ECollect w)))
+  | KPersist => if k_down x then (x, []) else cur false (st1 s EPersist)
+  | KStop => if k_down x then (x, []) else
+      gone true (seq2 (seq2 (st1 s EStop) (fun t => st1 t EExit)) (fun t => st1 t EPersist))
+  | KCrash => if k_down x then (x, []) else gone true (seq2 (st1 s EStop) (fun t => st1 t EExit))
+  | KStart => if k_down x then gone false (seq2 (st1 s ERestart) go) else (x, [])
+  | KReplace id c => cur (k_down x) (st1 s (EReplace id c))
+  | KSync => if k_down x then (x, []) else
       let '(s1, o1) := st1 s ESync in
       match o1 with
-      | [OFresh _] => lift false (seq2 (s1, o1) go)
-      | _ => lift false (s1, o1)
+      | [OFresh _] =>
+          let old' := if negb (Nat.eqb (d_id (dsc s)) (fid s)) && alive s
+                      then Some (fst (st1 (own_file s) EStopOnEof)) else k_old x in
+          let r := seq2 (s1, o1) go in (mkK false (fst r) old', snd r)
+      | _ => cur false (s1, o1)
+      end
+  | KOldRun =>
+      match k_old x with
+      | Some t => if k_down x then (x, []) else let r := go t in (mkK false s (Some (fst r)), snd r)
+      | None => (x, [])
+      end
+  | KOldConfirm =>
+      match k_old x with
+      | Some t => if k_down x then (x, []) else let r := confirm_then (st1 t EConfirm) in (mkK false s (Some (fst r)), snd r)
+      | None => (x, [OConf false])
       end
   end.
 
-Fixpoint krun (x : bool * st) (ks : list kev) : list obs :=
+Fixpoint krun (x : kst) (ks : list kev) : list obs :=
   match ks with
   | [] => []
   | k :: tl => let '(x1, o1) := kstep x k in o1 ++ krun x1 tl
@@ -91,14 +122,21 @@ End K.
 
 (* the scanner has not run yet: no process, no saved state, the file holds [content] *)
 Definition blank (content : bytes) : st :=
-  mkSt content 0 [] false 0 [] 0 [] 0 PDone false false true (mkDesc 0 0 0) None.
+  mkSt content 0 [] false 0 [] 0 [] 0 PDone false false false true (mkDesc 0 0 0) None.
 
 Inductive case :=
-| KCase (B rpe : nat) (content : bytes) (kevs : list kev) (observed : list obs).
+| KCase (B rpe : nat) (content : bytes) (kevs : list kev) (observed : list obs)
+(* the collector stream: Run hides Confirm() results, descriptor offsets and the offset a worker starts at *)
+| KCaseC (B rpe : nat) (content : bytes) (kevs : list kev) (observed : list obs).
+
+Definition visible_c (o : obs) : bool :=
+  match o with OConf _ | OOffset _ | ORestart _ => false | _ => true end.
 
 Definition check (c : case) : bool :=
   match c with
-  | KCase B rpe content kevs observed => list_eqb obs_eqb (krun (buf_size B) rpe (true, blank content) kevs) observed
+  | KCase B rpe content kevs observed => list_eqb obs_eqb (krun (buf_size B) rpe (mkK true (blank content) None) kevs) observed
+  | KCaseC B rpe content kevs observed =>
+      list_eqb obs_eqb (filter visible_c (krun (buf_size B) rpe (mkK true (blank content) None) kevs)) observed
   end.
 
 Definition mismatches (l : list case) : list nat := mismatches_of check l.
